@@ -11,6 +11,9 @@ OBJS = {
     # ee / ree: the encircled-energy interpolators evaluated at the sampled radii (pseudo-arrays: whatever they keep must follow the scale)
     'cog':         dict(arrays=['profile', 'profile_error', 'ee', 'ree'], zero=[]),
     'cog_zerosum': dict(arrays=['profile', 'profile_error'], zero=['sum']),
+    # profiles with NaN bins (a fully masked core; apertures without overlap): the normalisations are taken over the finite bins
+    'radial_nanbins': dict(arrays=['profile', 'profile_error'], zero=[]),
+    'cog_nanbins': dict(arrays=['profile', 'profile_error'], zero=[]),
 }
 
 
@@ -23,6 +26,14 @@ def make(kind):
         if kind == 'radial':
             return RadialProfile(data, (11.2, 9.7), np.arange(0, 9), error=err)
         return CurveOfGrowth(data, (11.2, 9.7), np.arange(1, 9), error=err)
+    if kind == 'radial_nanbins':
+        data = 30.0 * np.exp(-0.5 * (((x - 11.0) / 3.0) ** 2 + ((y - 10.0) / 3.0) ** 2)) + 2.0
+        m = (x - 11) ** 2 + (y - 10) ** 2 <= 2.3 ** 2            # the saturated core is masked: the two innermost bins hold no pixel
+        return RadialProfile(data, (11, 10), [0, 1, 2, 3, 4.5, 6, 8], error=np.sqrt(data) * 0.2, mask=m, method='center')
+    if kind == 'cog_nanbins':
+        data = 30.0 * np.exp(-0.5 * (((x - 2.0) / 3.0) ** 2 + ((y - 10.0) / 3.0) ** 2)) + 2.0
+        # the centre lies off the image: the smallest apertures have no overlap at all (NaN sums)
+        return CurveOfGrowth(data, (-3.0, 10.0), [1.0, 2.0, 4.0, 6.0, 8.0], error=np.ones(data.shape), method='center')
     if kind == 'cog_zerosum':
         data = np.zeros((9, 9)); data[4, 4] = 2.0
         for dy, dx in ((0, 1), (0, -1), (1, 0), (-1, 0)):
